@@ -1,7 +1,192 @@
-/- C13 line-protocol driver (core-only). Stub until the property's model lands. -/
+/- C13 line-protocol driver (core-only).
+
+Formats:  tx   = `ver;lock;ins;outs`        ins/outs = `_` (none) or items joined by `|`
+          in   = `prevhash:idx:script:seq:wit`   wit = `_` (no witness) or items joined by `.`
+          out  = `value:script`             bytes = hex, `-` = empty
+          txs  = `_` or txs joined by `,`
+-/
+import BV.Common.Hex
+import BV.Common.Sha256
+import BV.C13.Model
 namespace BV.C13.Driver
+open BV.Hex BV.C13 BV.C13.Spec
+
+def parseList {β : Type} (sep : String) (f : String → Option β) (s : String) : Option (List β) :=
+  if s == "_" then some [] else (s.splitOn sep).mapM f
+
+def parseIn? (s : String) : Option TxIn :=
+  match s.splitOn ":" with
+  | [h, idx, sc, seq, wit] => do
+    let h ← hexToList? h
+    let idx ← idx.toNat?
+    let sc ← hexToList? sc
+    let seq ← seq.toNat?
+    let wit ← parseList "." hexToList? wit
+    pure ⟨h, idx, sc, seq, wit⟩
+  | _ => none
+
+def parseOut? (s : String) : Option TxOut :=
+  match s.splitOn ":" with
+  | [v, pk] => do
+    let v ← v.toNat?
+    let pk ← hexToList? pk
+    pure ⟨v, pk⟩
+  | _ => none
+
+def parseTx? (s : String) : Option Tx :=
+  match s.splitOn ";" with
+  | [v, l, ins, outs] => do
+    let v ← v.toNat?
+    let l ← l.toNat?
+    let ins ← parseList "|" parseIn? ins
+    let outs ← parseList "|" parseOut? outs
+    pure ⟨v, ins, outs, l⟩
+  | _ => none
+
+def parseTxs? (s : String) : Option (List Tx) := parseList "," parseTx? s
+
+def parseBool? (s : String) : Option Bool :=
+  if s == "1" then some true else if s == "0" then some false else none
+
+def toBA (l : List UInt8) : ByteArray := ByteArray.mk l.toArray
+
+/-- the node hash: double-SHA-256 of the concatenation -/
+def H (a b : ByteArray) : ByteArray := BV.Sha256.hash2 (a ++ b)
+def zeroHash : ByteArray := toBA (List.replicate 32 0)
+
+def txid (t : Tx) : ByteArray := BV.Sha256.hash2 (toBA (t.serialize false))
+def wtxid (t : Tx) : ByteArray := BV.Sha256.hash2 (toBA (t.serialize true))
+
+/-- the leaves both Go constructions feed to the tree: txids, or wtxids with leaf 0 zeroed -/
+def leaves (w : Bool) (txs : List Tx) : List ByteArray :=
+  if w then
+    match txs with
+    | [] => []
+    | _ :: rest => zeroHash :: rest.map wtxid
+  else txs.map txid
+
+def hexBA (b : ByteArray) : String := listToHex b.toList
+
+def optHex : Option ByteArray → String
+  | some b => hexBA b
+  | none => "panic"
+
+def vwcStr : VwcResult → String
+  | .ok => "ok" | .noTransactions => "err:noTransactions" | .noTxInputs => "err:noTxInputs"
+  | .unexpectedWitness => "err:unexpectedWitness" | .invalidCommitment => "err:invalidCommitment"
+  | .mismatch => "err:mismatch" | .panic => "panic"
+
+def parseUtxo? (s : String) : Option Utxo :=
+  if s == "x" || s.startsWith "s" then some none else (hexToList? s).map some
+
+def optNat : Option Nat → String
+  | some n => toString n
+  | none => "err:missing"
+
+def parseLockIn? (s : String) : Option (Nat × Option Int) :=
+  match s.splitOn ":" with
+  | [seq, h] => do
+    let seq ← seq.toNat?
+    if h == "x" then pure (seq, none)
+    else if h == "m" then pure (seq, some 0x7fffffff)
+    else
+      let h ← h.toInt?
+      pure (seq, some h)
+  | _ => none
 
 def handle : List String → String
-  | _ => "unimplemented"
+  | ["merkle", w, txs] =>
+    match parseBool? w, parseTxs? txs with
+    | some w, some txs =>
+      let r := hexBA (mroot H zeroHash (leaves w txs))
+      s!"roll={r} store={r}"
+    | _, _ => "bad-op"
+  | ["mstore", w, txs] =>
+    match parseBool? w, parseTxs? txs with
+    | some w, some txs =>
+      ",".intercalate ((buildStore H zeroHash (leaves w txs)).map (fun o => match o with
+        | some b => hexBA b | none => "nil"))
+    | _, _ => "bad-op"
+  | ["mroll", w, txs] =>
+    match parseBool? w, parseTxs? txs with
+    | some w, some txs => optHex (rollingRoot H zeroHash (leaves w txs))
+    | _, _ => "bad-op"
+  | ["npot", n] =>
+    match n.toNat? with
+    | some n => toString (nextPowerOfTwo n)
+    | none => "bad-op"
+  | ["commit", tx] =>
+    match parseTx? tx with
+    | some t =>
+      -- the property's observation: the Spec value on a coinbase, `none` on anything else
+      if t.isCoinBase then
+        match commitment (t.outs.map (·.pk)) with
+        | some c => listToHex c
+        | none => "none"
+      else "none"
+    | none => "bad-op"
+  | ["vwc", txs] =>
+    match parseTxs? txs with
+    | some txs =>
+      let root := some (mroot H zeroHash (leaves true txs)).toList
+      vwcStr (validateWitnessCommitment BV.Sha256.hash2List root txs)
+    | none => "bad-op"
+  | ["txw", tx] =>
+    match parseTx? tx with
+    | some t => s!"w={txWeight t} base={(t.serialize false).length} total={(t.serialize true).length}"
+    | none => "bad-op"
+  | ["blkw", txs] =>
+    match parseTxs? txs with
+    | some txs => toString (blockWeight txs)
+    | none => "bad-op"
+  | ["sigops", sc] =>
+    match hexToList? sc with
+    | some s => s!"fast={sigOps false s} precise={sigOps true s}"
+    | none => "bad-op"
+  | ["p2sh", sig, pk] =>
+    match hexToList? sig, hexToList? pk with
+    | some sig, some pk => toString (getPreciseSigOpCount sig pk)
+    | _, _ => "bad-op"
+  | ["wsig", sig, pk, wit] =>
+    match hexToList? sig, hexToList? pk, parseList "." hexToList? wit with
+    | some sig, some pk, some wit => toString (getWitnessSigOpCount sig pk wit)
+    | _, _, _ => "bad-op"
+  | ["cost", tx, cb, bip16, segwit, utxos] =>
+    match parseTx? tx, parseBool? cb, parseBool? bip16, parseBool? segwit, parseList "," parseUtxo? utxos with
+    | some t, some cb, some b16, some sw, some us =>
+      if us.length ≠ t.ins.length then "bad-op" else
+      s!"legacy={countSigOps t} p2sh={optNat (countP2SHSigOps t cb us)} cost={optNat (getSigOpCost t cb us b16 sw)}"
+    | _, _, _, _, _ => "bad-op"
+  | ["cbh", sc, want] =>
+    match hexToList? sc, want.toInt? with
+    | some s, some want => match extractCoinbaseHeight s with
+      | .ok h => toString h ++ (if h = want then " chk=ok" else " chk=err:bad")
+      | .missing => "err:missing chk=err:missing" | .bad => "err:bad chk=err:bad"
+    | _, _ => "bad-op"
+  | ["final", lt, h, t, seqs] =>
+    match lt.toNat?, h.toInt?, t.toInt?, parseList "," String.toNat? seqs with
+    | some lt, some h, some t, some seqs => if isFinalizedTransaction lt seqs h t then "1" else "0"
+    | _, _, _, _ => "bad-op"
+  | ["seqlock", act, ver, cb, times, ins] =>
+    match parseBool? act, ver.toNat?, parseBool? cb, parseList "," String.toInt? times,
+        parseList "," parseLockIn? ins with
+    | some act, some ver, some cb, some ts, some ins =>
+      if ts = [] then "bad-op" else
+      let nodeHeight : Int := (ts.length : Int) - 1
+      let lis := ins.map (fun (p : Nat × Option Int) =>
+        let h : Int := match p.2 with
+          | some h => if h = 0x7fffffff then nodeHeight + 1 else h
+          | none => 0
+        let prev := (if h - 1 < 0 then 0 else h - 1).toNat
+        (⟨p.1, p.2, medianTime (ts.take (prev + 1)).reverse⟩ : LockInput))
+      match calcSequenceLock act ver cb nodeHeight lis with
+      | .ok s h => s!"{s},{h}"
+      | .missing => "err:missing"
+    | _, _, _, _, _ => "bad-op"
+  | ["lockactive", s, h, bh, mtp] =>
+    match s.toInt?, h.toInt?, bh.toInt?, mtp.toInt? with
+    | some s, some h, some bh, some mtp => if sequenceLockActive s h bh mtp then "1" else "0"
+    | _, _, _, _ => "bad-op"
+  | _ => "bad-op"
 
 end BV.C13.Driver
